@@ -15,7 +15,7 @@ Definition Cnt (s : st) : Prop := cancels s <= ncanc (hp s ++ nw s).
 
 Lemma act_length_le : forall l, (length (act l) <= length l)%nat.
 Proof.
-  induction l as [|c r IH]; cbn; [lia|]. rewrite act_cons. destruct (active c); cbn; lia.
+  induction l as [|c r IH]; [cbn; lia|]. rewrite act_cons. destruct (active c); cbn [length]; lia.
 Qed.
 
 Lemma ncanc_nonneg : forall l, 0 <= ncanc l.
@@ -77,7 +77,8 @@ Lemma Cnt_exec_bop : forall s b, Cnt s -> Cnt (exec_bop s b).
 Proof.
   intros s b H. unfold Cnt in *. destruct b as [d|i|i x|i x| |]; cbn [exec_bop]; try exact H.
   - (* callLater *)
-    cbn [hp nw cancels]. rewrite app_assoc, ncanc_app, ncanc_cons. cbn. unfold ncanc at 2. cbn. lia.
+    cbn [hp nw cancels]. rewrite (app_assoc (hp s) (nw s)), ncanc_app, ncanc_cons. cbn [active ccanc negb].
+    change (ncanc []) with 0. lia.
   - (* cancel *)
     destruct (place_call (locate i s)) as [c|] eqn:Hpl; [|exact H].
     destruct (put_back_lists s i c (set_canc c) false 1 (ECancel i) Hpl eq_refl) as [L1 [L2 [E1 [P E2]]]].
@@ -138,8 +139,8 @@ Section WithBody.
     - cbn [hp nw cancels]. lia.
     - destruct (0 <? cdelay c).
       + cbn [hp nw cancels]. destruct (heappush_spec call ctime dcall h' (activate c) Hh') as [Pq _].
-        rewrite ncanc_app, (ncanc_perm _ _ Pq), ncanc_cons. unfold active, activate. cbn. rewrite Ec. cbn.
-        rewrite ncanc_app in E. lia.
+        assert (Ea : active (activate c) = true) by (unfold active, activate; cbn [ccanc]; rewrite Ec; reflexivity).
+        rewrite ncanc_app, (ncanc_perm _ _ Pq), ncanc_cons, Ea. rewrite ncanc_app in E. lia.
       + cbn zeta. apply Cnt_emit. apply Cnt_exec_body. unfold Cnt. cbn [hp nw cancels]. lia.
   Qed.
 
